@@ -236,18 +236,31 @@ func condAtoms(cond ast.Expr, pol int, atom func(e ast.Expr, pol int)) {
 	atom(unparen(cond), pol)
 }
 
-// edgeImplies reports whether crossing e establishes an atomic fact accepted by atom.
+// edgeImplies reports whether crossing e establishes an atomic fact accepted by atom, whichever way the
+// condition came to have the edge's polarity: for a conjunction that is true (disjunction that is false) one accepted
+// operand suffices; for a disjunction that is true (conjunction that is false) every operand must yield an accepted fact.
 func edgeImplies(e *GEdge, atom func(c ast.Expr, pol int) bool) bool {
 	if e.Cond == nil || e.Tag != nil {
 		return false
 	}
-	hit := false
-	condAtoms(e.Cond, e.Pol, func(c ast.Expr, pol int) {
-		if atom(c, pol) {
-			hit = true
+	return condHolds(e.Cond, e.Pol, atom)
+}
+
+func condHolds(cond ast.Expr, pol int, atom func(c ast.Expr, pol int) bool) bool {
+	switch x := unparen(cond).(type) {
+	case *ast.UnaryExpr:
+		if x.Op == token.NOT {
+			return condHolds(x.X, -pol, atom)
 		}
-	})
-	return hit
+	case *ast.BinaryExpr:
+		if (x.Op == token.LAND && pol > 0) || (x.Op == token.LOR && pol < 0) {
+			return condHolds(x.X, pol, atom) || condHolds(x.Y, pol, atom)
+		}
+		if x.Op == token.LAND || x.Op == token.LOR {
+			return condHolds(x.X, pol, atom) && condHolds(x.Y, pol, atom)
+		}
+	}
+	return atom(unparen(cond), pol)
 }
 
 // cmpNorm normalises a comparison `a op b` so that callers can ask for it in
